@@ -78,6 +78,89 @@ def table_headers(rnd, method):
     return res
 
 
+def lh1_many_groups(ctx, rnd):
+    """Directed family (audit round): -lh1- streams that drive the adaptive tree into as many simultaneous
+    equal-frequency groups as possible (the decoder keeps one group per distinct frequency; text-like data and random
+    bytes stay far below the number the tables are sized for).  Code k is used about k times inside one rebuild period, so
+    that some 250 leaves and most branch nodes above them have pairwise different frequencies (more than 400 groups live
+    at once, against 314 codes / 627 nodes); a second list continues past the rebuild at 32768 symbols.  Encoded by the
+    extracted LZHUF transliteration; returns (stream, declared length) pairs."""
+    lists = []
+    order = list(range(314))
+    rnd.shuffle(order)
+    a = []
+    for k in range(1, 251):
+        s = order[k]
+        a += [("L%02x" % s) if s < 256 else ("C%d:%d" % (rnd.randrange(4096), s - 253))] * k
+    lists.append(a + ["L41"] * 200)
+    b = list(a)
+    rnd.shuffle(b)
+    lists.append(b + a[:6000])
+    out = common.run_lines_parallel([ctx.model], ["lh1enc " + ",".join(l) for l in lists], timeout=900)
+    res = []
+    for o in out:
+        parts = o.split()
+        if len(parts) >= 3 and parts[0] not in ("ERR", "FAULT"):
+            res.append((common.unhex(parts[0]), int(parts[1])))
+    return res
+
+
+def deep_state_streams(ctx, rnd):
+    """Directed family (audit round): inputs that take a decoder far into its state space before the bytes turn hostile.
+    Random bytes, short seed members and table headers (the families above) never bring -pm2- to its table re-reads at
+    4 KiB / 8 KiB, never bring -pm1- to the long copy-length classes, the far distance class and its position-dependent
+    widths, or to a full byte block followed by a maximal copy in one call (the largest output of a single call), and
+    never carry -lh1- through a tree rebuild.  Here the spec encoders build a well-formed prefix that reaches those
+    states; each stream is then run as it is, with bit flips in its last quarter, and truncated.
+    Returns (method, data, declared length, kind)."""
+    import test_enc_pm as pm
+    enc = []          # (method, encoder line)
+    # -pm2-: past the re-read points at 4096 and 8192 (code table re-sent or kept, 8-entry offset table)
+    for target, variant in ((4096 + 300, 0), (8192 + 300, 5), (4096 + 40, 2)):
+        g = pm.Gen(0x20)
+        pm.pm2_fill(g, target, rnd)
+        for _ in range(30):
+            pm.pm2_rand_cmd(g, rnd)
+        enc.append(("-pm2-", "pm2enc %s %d" % (g.line(), variant)))
+    # -pm1-: every copy-length class incl. 85..116 and 117..244, distances of the last class at each of its widths
+    # (output positions 2880 .. 6720 and beyond), a block of 215 bytes followed by a copy of 244 (215 + 244 bytes from
+    # one call), and a block of 216
+    for h in (0, 9):
+        cl = pm.PM1_CLASSES[h]
+        g = pm.Gen(0)
+        pm.pm1_fill(g, 2700, rnd, cl)
+        for pos in (2880, 3136, 3648, 4672, 6720, 7400):
+            if g.n < pos - 30:
+                pm.pm1_fill(g, pos - 30, rnd, cl, last="copy")
+            for ln in (rnd.choice([84, 23]), 85, 116, 117, 244):
+                g.copy(rnd.choice([2624, g.n - 1 if g.n - 1 < 10816 else 10815, rnd.randrange(2624, min(g.n, 10816))]), ln) if g.n > 2624 else g.copy(0, ln)
+                pm.pm1_lit(g, rnd, cl)
+        for _ in range(215):
+            pm.pm1_lit(g, rnd, cl)
+        g.copy(rnd.choice(pm.pm1_dists(g.n, 244)), 244)
+        for _ in range(216):
+            pm.pm1_lit(g, rnd, cl)
+        g.copy(0, 2)
+        enc.append(("-pm1-", "pm1enc %d %s" % (h, g.line())))
+    out = common.run_lines_parallel([ctx.model], [e[1] for e in enc], timeout=900)
+    res = []
+    for (m, el), o in zip(enc, out):
+        parts = o.split()
+        if len(parts) < 3 or parts[0] in ("ERR", "FAULT") or (len(parts) >= 4 and parts[3] == "0"):
+            continue                              # (the C04 check reports encoder problems; here the stream is only a vehicle)
+        d, n = common.unhex(parts[0]), int(parts[1])
+        res.append((m, d, n, "deep-valid"))
+        for _ in range(3):
+            b = bytearray(d)
+            lo = len(b) * 3 // 4
+            for _ in range(rnd.choice([1, 3, 10])):
+                i = rnd.randrange(lo, len(b))
+                b[i] ^= 1 << rnd.randrange(8)
+            res.append((m, bytes(b) + bytes(rnd.randrange(256) for _ in range(rnd.choice([0, 40]))), n + rnd.choice([0, 1000]), "deep-flipped"))
+        res.append((m, d[:rnd.randrange(lo, len(d))], n, "deep-truncated"))
+    return res
+
+
 def run(ctx):
     rnd = random.Random(ctx.seed * 32452843 + 9)
     cb = CBuild(PID)
@@ -128,6 +211,20 @@ def run(ctx):
                 lines.append(decgen.case(m, d, decgen.chunkings(rnd), L, reads, rnd.choice([-1, 0]), rnd.choice([0, 170, 255])))
                 meths.append(m)
                 dist[m + ":" + kind] += 1
+        rnd_dir = random.Random(ctx.seed * 7919 + 910)
+        extra = deep_state_streams(ctx, rnd_dir)
+        for (d, n) in lh1_many_groups(ctx, random.Random(ctx.seed * 7919 + 909)):
+            extra.append(("-lh1-", d, n, "many-groups"))
+            b = bytearray(d)                      # the same prefix (it passes a tree rebuild), hostile tail
+            for _ in range(8):
+                i = rnd_dir.randrange(len(b) * 9 // 10, len(b))
+                b[i] ^= 1 << rnd_dir.randrange(8)
+            extra.append(("-lh1-", bytes(b), n + 2000, "many-groups-flipped"))
+        for (m, d, L, kind) in extra:
+            reads = rnd_dir.choice(["%d" % (L + 7), "7*%d,%d" % (min(L // 7 + 1, 500), L), "4096*%d" % (L // 4096 + 2)])
+            lines.append(decgen.case(m, d, rnd_dir.choice(["-", "-", "3", "1000"]), L, reads, rnd_dir.choice([-1, 0]), rnd_dir.choice([0, 170, 255])))
+            meths.append(m)
+            dist[m + ":" + kind] += 1
         co = common.run_lines_parallel([cexe], lines)
         midx = [i for i, m in enumerate(meths) if m in modelled]
         mo_part = common.run_lines_parallel([ctx.model], [lines[i] for i in midx])
@@ -139,10 +236,10 @@ def run(ctx):
             pc = decgen.parse(c)
             if hk not in seen:
                 seen.add(hk)
-                if "len" in pc and int(pc["len"]) > 0:
+                if "len" in pc and pc["len"].isdigit() and int(pc["len"]) > 0:     # (a line cut short by a crash has no digits here)
                     nontriv += 1
             if "h" not in pc or "OVERREAD" in pc.get("r", ""):
-                viol.append({"property": PID, "kind": "memory-error", "case": ln[:6000], "observed": c[:400],
+                viol.append({"property": PID, "kind": "memory-error", "case": ln[:200000], "observed": c[:400],
                              "sig": "crash:" + meths[i] + ":" + c.split("@")[-1][:60]})
                 continue
             if i in mo and mo[i] != c:
